@@ -7,6 +7,7 @@ from simkit.core import Run
 from simkit.sim import Sim, SimDeadlock, SimLimit
 from simkit.tape import Tape
 from simkit import values as V
+from simkit import seams
 from simkit.core import HarnessError
 from simkit.runner import safe_run_tape
 
@@ -25,6 +26,14 @@ OUT_FAULTS = ['handler_raises', 'discard_in_body', 'force_in_body', 'discard_bef
 META = {
     'engine': 'recplay',
     'level': 'fault_enumeration',
+    'level_text': ('Per generated program every single placement of every tolerated fault kind at every interception step is '
+                   'enumerated (pairs sampled), and for threaded programs every single line-level pre-emption placement '
+                   '(capped) plus seeded random schedules; the oracle is an undecorated twin with object-identity and '
+                   'exactly-once journals.  Programs themselves are sampled, so this is enumeration of fault/schedule '
+                   'placements over sampled workloads, not a proof.'),
+    'level_note': ('Trusted: the generated-service interpreter and environment journal (engines/recplay.py), the baton '
+                   'scheduler (simkit/sim.py, determinism self-tested), CPython line-event semantics. Assumes no nested or '
+                   'concurrent operations on one recorder; line granularity of pre-emption.'),
     'rule': ('Each evaluation = one generated service (1-4 intercepted inputs, 0-3 outputs, <=10 steps, optional worker '
              'threads incl. stragglers) run three times: undecorated twin, decorated with recording enabled under a '
              'fault plan (and, for threaded programs, under the seeded line-level scheduler), decorated with recording '
@@ -93,6 +102,11 @@ def outcome_of(fn):
 
 
 def run_tape(tape):
+    with seams.deterministic(tape):
+        return _run_tape(tape)
+
+
+def _run_tape(tape):
     run = Run(PROP)
     # ---- configuration draws, fixed order (systematic placement overrides them through the tape prefix)
     nfaults = tape.draw(3)
